@@ -470,6 +470,9 @@ func init() {
 					out = append(out, tv[0]) // the same sentence with trivia before every token
 				}
 			}
+			if fam == 7 {
+				out = append(out, chainSentences(rng)...)
+			}
 			if len(must[fam]) > 0 {
 				for _, s := range genCfg(rng, fam, 60, must[fam], lastCfgStats) {
 					out = append(out, s.Src)
@@ -611,8 +614,8 @@ func withTriviaKinds(rng *rand.Rand, src []byte, fam int, mode int) [][]byte {
 				}
 			case wsOnly(gap) || len(gap) == 0:
 				tv := trivia[rng.Intn(len(trivia))]
-				if len(gap) == 0 && strings.TrimSpace(tv) == "" {
-					tv = "" // tokens that touch in the base stay touching unless a comment separates them
+				if len(gap) == 0 && strings.TrimSpace(tv) == "" && rng.Intn(3) == 0 {
+					tv = "" // two of three touching pairs are separated (PHP allows trivia between any two tokens outside string modes)
 				}
 				if pv := lt[i-1].Value; tv != "" && pv != "" && (tv[0] == '/' || tv[0] == '#') && strings.IndexByte("/<?*", pv[len(pv)-1]) >= 0 {
 					tv = " " + tv // `/` + `/* c */` would read as a line comment
